@@ -137,7 +137,7 @@ CHECKS = {
         "jobs": [{"pkg": "c20time", "run": "TestSleepContext|TestJitterTicker", "kinds": ["sleep", "ticker"], "scale_thorough": 10, "shards_thorough": 16},
                  {"pkg": "c20time", "race": True, "run": "TestTickerRace", "kinds": ["ticker-race"], "scale_thorough": 4, "shards_thorough": 4},
                  {"pkg": "c20old", "run": "TestSleepOldTimers|TestTickerStarved", "kinds": ["sleep-old-timers", "ticker-starved"], "scale_thorough": 4, "shards_thorough": 4},
-                 {"pkg": "c20old", "run": "TestTickerResetStorm", "kinds": ["ticker-reset-storm"], "shards_quick": 4, "scale_quick": 4, "scale_thorough": 16, "shards_thorough": 8}],
+                 {"pkg": "c20old", "run": "TestTickerResetStorm|TestTickerStopStorm", "kinds": ["ticker-reset-storm", "ticker-stop-storm"], "shards_quick": 4, "scale_quick": 4, "scale_thorough": 16, "shards_thorough": 8}],
     },
     "C16": {
         "level": "exploration",
@@ -301,7 +301,7 @@ RULE_ADDENDA = {
     "C17": " Real-clock kinds in c17old: pot-old-timers, pot-trigger-real (a trigger aimed at the end of a run), stop-reentrant (a group function that calls into the group while StopAndWait waits), group-dropped (a Group nobody references keeps running until stopped, across GCs). Also runs for GOARCH=386.",
     "C18": " sync-storm modes: loadorstore, loadanddelete, nomatch (a failing CompareAndDelete/CompareAndSwap is invisible to concurrent observers), watchable with 1-3 setters; future waiters that arrive late with deadline contexts. Also runs for GOARCH=386.",
     "C19": " Also: inputs of thousands of items (strategy switches), stateful callbacks (call counts), huge arguments, sampling over populations up to MaxInt64/2, kind sample-race (package-level xrand functions from several goroutines under the race detector).",
-    "C20": " Also: periods with sub-millisecond parts and near MaxInt64, kind ticker-reset-storm (real clock: up to 16 goroutines reset one ticker hundreds of times, then to one hour: no tick stamped after the last switch).",
+    "C20": " Also: periods with sub-millisecond parts and near MaxInt64, kind ticker-reset-storm (real clock: up to 16 goroutines reset one ticker hundreds of times, then to one hour: no tick stamped after the last switch), kind ticker-stop-storm (real clock: 20 us tickers stopped at swept moments by 2-8 goroutines: no tick stamped after Stop returned).",
 }
 for _id, _txt in RULE_ADDENDA.items():
     CHECKS[_id]["rule"] = CHECKS[_id]["rule"] + _txt
